@@ -35,6 +35,8 @@ for d in sorted(glob.glob(f"{root}/seeded/*")):
         "violated_obligations": viol,
         "replayed_on_real_code": len(confirmed) > 0,
     }
+    if os.path.exists(f"{d}/strengthened.txt"):
+        meta["history"] = open(f"{d}/strengthened.txt").read().strip()
     if not meta["detected"] and os.path.exists(f"{d}/why_missed.txt"):
         meta["why_missed"] = open(f"{d}/why_missed.txt").read().strip()
     json.dump(meta, open(f"{d}/meta.json", "w"), indent=1)
